@@ -119,10 +119,11 @@ class Lst(Val):
 
 
 class Dct(Val):
-    __slots__ = ("items",)
+    __slots__ = ("items", "shared_name")
 
     def __init__(self, items=None):
         self.items = dict(items or {})  # python key -> Val
+        self.shared_name = None
 
     @property
     def tag(self):
